@@ -43,6 +43,13 @@ Definition write_any (E : env) (t : ty) (v : value) : tres (prim * env) :=
   | _ => tmap (fun p => (p, E)) (write gen_schemas hands run_fuel t v)
   end.
 
+(* a struct without #[derive(ObjectWrite)] is only read (the harness observes success) *)
+Definition writable (t : ty) : bool :=
+  match t with
+  | TStruct i => match get_struct gen_schemas i with Some s => s_write s | None => false end
+  | _ => true
+  end.
+
 Definition created (E0 E1 : env) : bytes :=
   canon (PArr (map (fun x => match x with XObj p => p | _ => PNull end) (skipn (length E0) E1))).
 
@@ -54,6 +61,7 @@ Definition step (allow : bool) (E : env) (t : ty) (p : prim) : res (list bytes *
   | TFuel => OutOfFuel
   | TErr e => Ok ([chain_text e], None)
   | TOk v =>
+    if negb (writable t) then Ok ([ok_text; []; []], None) else
     match write_any E t v with
     | TPanic s => Panic s
     | TFuel => OutOfFuel
@@ -82,7 +90,7 @@ Definition run_typed_roundtrip (fs : list bytes) : res (list bytes) :=
   | _, _, _ => Err 1000
   end.
 
-(* dangling: opts ('s' | 't'), type, dictionary (canon), key, reference (canon), /Size, entries "<id> <f | canon>" …
+(* dangling: opts ('s' | 't'), type, dictionary (canon), key, reference (canon), /Size, entries "<id> <x (free) | canon>" …
    -> A = read+write of the dictionary with key ↦ reference, B = of the dictionary without the key:  rA wA cA | rB wB cB
    table: backend.rs read_xref_table_and_trailer / xref.rs XRefTable::new: /Size Invalid entries, one Free, then the sections *)
 Fixpoint split_sp (l : bytes) : bytes * bytes :=
@@ -101,7 +109,7 @@ Fixpoint build_table (es : list bytes) (E : env) : option env :=
   | [] => Some E
   | e :: t =>
     let (i, r) := split_sp e in
-    let x := if beqb r [102] then Some XFree else match parse_canon r with Some p => Some (XObj p) | None => None end in
+    let x := if beqb r [120] then Some XFree else match parse_canon r with Some p => Some (XObj p) | None => None end in
     match x with Some x => build_table t (set_nth (N.to_nat (N_of_dec i)) x E) | None => None end
   end.
 
